@@ -37,6 +37,10 @@ def modules():
         for m in get_number_modules():
             out.append((m.__name__[len('stdnum.'):], m))
         out.sort(key=lambda t: t[0])
+        # development aid (never set by a registered command): restrict the generic drivers to some modules
+        only = [x for x in os.environ.get('VERIF_ONLY', '').split(',') if x]
+        if only:
+            out = [t for t in out if t[0] in only]
         _modules = out
     return _modules
 
@@ -138,6 +142,27 @@ def pick(seq, n, rnd):
         return seq
     idx = sorted(rnd.sample(range(1, len(seq)), n - 1))
     return [seq[0]] + [seq[i] for i in idx]
+
+
+def pick_bases(name, mod, items, n, rnd, cap=6):
+    """pick(items, n) plus one VALID representative of every branch of the format that the corpus documents: numbers are
+    grouped by (length, class of the first character, class of the last character) of their canonical form and the first
+    of each group is added (at most cap groups).  Formats with several layouts (do.ncf: E.., B.., A.. numbers of three
+    lengths) are otherwise examined on the layouts of the first two corpus numbers only."""
+    base = pick(items, n, rnd)
+
+    def cls(ch):
+        return 'd' if ch.isdigit() else 'A' if ch.isalpha() else ch
+    groups = {}
+    for x in sorted(items, key=lambda z: (len(z), z)):
+        try:
+            v = mod.validate(x)
+        except Exception:
+            continue
+        if isinstance(v, str) and v:
+            groups.setdefault((len(v), cls(v[0]) if len(v) > 12 or not v[0].isalpha() else v[0], cls(v[-1])), x)
+    reps = [groups[k] for k in sorted(groups)][:cap]
+    return base + [x for x in reps if x not in base]
 
 
 def distinct_compact(name, mod, items):
